@@ -1,7 +1,7 @@
 (* Entry points of the correspondence check: one call per case record written by the
    harness.  Everything here is executable; nothing is proved in this file. *)
 From VJ Require Import Model.Str Model.Json Model.Ast Model.State Model.Util Model.Text
-  Model.Directive Model.Lower Model.Visitor Model.Types.
+  Model.Directive Model.Lower Model.Visitor Model.Types Spec.OutViews.
 From VJ Require Import Gen.Tables.
 
 Definition jfield_d (k : String.string) (j : jv) : jv :=
@@ -76,6 +76,20 @@ Record case_result := {
   cr_extra : list (str * str);  (* oracle results etc.: key=value *)
 }.
 
+Definition b2s (b : bool) : str := if b then [49] else [48].
+
+(* per-property results on this case: o<id> = the property's predicate on the REAL output,
+   v<id> = the property's view of the real output equals its view of the model's output *)
+Definition extras (c : jv) (model_out : jv) : list (str * str) :=
+  let real := dec (jfield_d "output" c) in
+  let model := dec model_out in
+  [ (s_ "oC13", match oracle_C13_codes real with
+                 | [] => [49]
+                 | cs => if forallb (N.eqb 11) cs then s_ "known:class_on_builtin_host"
+                         else s_ "fail:" ++ dec_of_N (hd 0 (filter (fun c => negb (N.eqb c 11)) cs))
+                 end);
+    (s_ "vC13", b2s (jv_eqb (view_C13 real) (view_C13 model))) ].
+
 Definition run_case (c : jv) : case_result :=
   let status := jfield_d "status" c in
   let input := jfield_d "input" c in
@@ -90,7 +104,7 @@ Definition run_case (c : jv) : case_result :=
            cr_same_out := if real_ok then jv_eqb mo (jfield_d "output" c) else true;
            cr_same_diag := strs_eqb (sort_strs (diags s)) (sort_strs (jstrs (jfield_d "diags" c)));
            cr_model_out := mo;
-           cr_model_diags := diags s; cr_extra := [] |}
+           cr_model_diags := diags s; cr_extra := if real_ok then extras c mo else [] |}
       else {| cr_relevant := false; cr_roundtrip := true; cr_same_status := true;
               cr_same_out := true; cr_same_diag := true; cr_model_out := JNull;
               cr_model_diags := []; cr_extra := [] |}
